@@ -139,9 +139,12 @@ class Unit:
 
     def term(self):
         """z3 term of the scale."""
-        t = z3.RealVal(str(self.coef))
+        t = None if self.coef == 1 else z3.RealVal(str(self.coef))
         for s, p in sorted(self.pows.items()):
-            t = t * _sympow(s, p)
+            f = _sympow(s, p)
+            t = f if t is None else t * f
+        if t is None:
+            t = z3.RealVal(1)
         for c, p in sorted(self._irr.items()):
             t = t * _sympow(f'sqrtc_{c.numerator}_{c.denominator}', p * 2, root_of=c)
         return z3.simplify(t) if not self.pows and not self._irr else t
@@ -179,6 +182,16 @@ def sym(name):
     return v
 
 
+def _ipow(v, n):
+    """v**n for an integer n by repeated multiplication (z3's power operator defeats the NRA solvers)."""
+    if n == 0:
+        return z3.RealVal(1)
+    t = v
+    for _ in range(abs(n) - 1):
+        t = t * v
+    return t if n > 0 else 1 / t
+
+
 def _sympow(s, p, root_of=None):
     p = Fr(p)
     if root_of is not None:
@@ -186,20 +199,16 @@ def _sympow(s, p, root_of=None):
         v = z3.Real(s)
         if s not in SYM_AXIOMS:
             SYM_AXIOMS[s] = [v > 0, v * v == z3.RealVal(str(root_of))]
-        n = int(p)
-        return v ** n if n > 0 else 1 / (v ** (-n))
+        return _ipow(v, int(p))
     if p.denominator == 1:
-        v = sym(s)
-        n = int(p)
-        return v ** n if n > 0 else 1 / (v ** (-n))
+        return _ipow(sym(s), int(p))
     if p.denominator == 2:
         base = sym(s)
         rn = f'{s}__root'
         r = z3.Real(rn)
         if rn not in SYM_AXIOMS:
             SYM_AXIOMS[rn] = [r > 0, r * r == base]
-        n = int(p.numerator)
-        return r ** n if n > 0 else 1 / (r ** (-n))
+        return _ipow(r, int(p.numerator))
     raise Unsupported(f'scale power {p}')
 
 
